@@ -52,7 +52,7 @@ fn c19_q_sign_rules() {
 macro_rules! unary_shape {
     ($name:ident, $neg:expr, $l:expr) => {
         #[kani::proof]
-        #[kani::unwind(12)]
+        #[kani::unwind(34)]
         fn $name() {
             let m0: [u64; $l] = vc::any_canon::<$l>();
             let x = mkint($neg, &m0);
@@ -123,7 +123,7 @@ macro_rules! unary_shape {
 macro_rules! from_biguint_shape {
     ($name:ident, $sk:expr, $l:expr) => {
         #[kani::proof]
-        #[kani::unwind(12)]
+        #[kani::unwind(34)]
         #[kani::stub(alloc::vec::Vec::shrink_to_fit, vc::noop_shrink)]
         fn $name() {
             let m0: [u64; $l] = vc::any_canon::<$l>();
@@ -149,7 +149,7 @@ macro_rules! from_biguint_shape {
 macro_rules! abs_sub_shape {
     ($name:ident, $nx:expr, $lx:expr, $ny:expr, $ly:expr) => {
         #[kani::proof]
-        #[kani::unwind(12)]
+        #[kani::unwind(34)]
         #[kani::stub(core::arch::x86_64::_addcarry_u64, vc::stub_addcarry)]
         #[kani::stub(core::arch::x86_64::_subborrow_u64, vc::stub_subborrow)]
         #[kani::stub(crate::biguint::addition::schoolbook_add_assign_x86_64, vc::model_add)]
@@ -169,7 +169,7 @@ macro_rules! abs_sub_shape {
 }
 
 #[kani::proof]
-#[kani::unwind(12)]
+#[kani::unwind(34)]
 fn c19_q_constants() {
     let z = [0u64; W];
     let one_w: [u64; W] = [1, 0, 0, 0];
@@ -189,7 +189,7 @@ fn c19_q_constants() {
 macro_rules! biguint_identity_shape {
     ($name:ident, $l:expr) => {
         #[kani::proof]
-        #[kani::unwind(12)]
+        #[kani::unwind(34)]
         fn $name() {
             let m0: [u64; $l] = vc::any_canon::<$l>();
             let x = vc::mk_cap(&m0, 2);
